@@ -363,6 +363,12 @@ func init() {
 		res := in.appendOp(s.get(in).(*SliceV), tmp, st)
 		return &RValue{t: st, v: res, ok: true}
 	}
+	I["reflect.MakeSlice"] = func(in *Interp, caller *frame, fn *ssa.Function, args []Value) Value {
+		t := args[0].(*IfaceV).v.(*RType).t
+		n := int(in.concInt(args[1].(*Term), "reflect.MakeSlice len"))
+		c := int(in.concInt(args[2].(*Term), "reflect.MakeSlice cap"))
+		return &RValue{t: t, v: in.mkSlice(t.Underlying().(*types.Slice).Elem(), n, c), ok: true}
+	}
 	I["reflect.DeepEqual"] = func(in *Interp, caller *frame, fn *ssa.Function, args []Value) Value {
 		in.unsupported("reflect.DeepEqual")
 		return nil
@@ -446,6 +452,23 @@ func init() {
 			return &RValue{t: ft, cell: rv.cell.kids[i], ok: true}
 		}
 		return &RValue{t: ft, v: rv.v.(*AggV).f[i], ok: true}
+	})
+	V("FieldByName", func(in *Interp, caller *frame, fn *ssa.Function, args []Value) Value {
+		rv := in.rvalueCheck(args[0], "FieldByName")
+		st, ok := rv.t.Underlying().(*types.Struct)
+		if !ok {
+			in.goPanic(&goPanic{kind: "user", msg: "reflect: call of reflect.Value.FieldByName on " + rv.t.String() + " Value"})
+		}
+		name := strArg(in, args[1])
+		for i := 0; i < st.NumFields(); i++ {
+			if st.Field(i).Name() == name {
+				if rv.cell != nil {
+					return &RValue{t: st.Field(i).Type(), cell: rv.cell.kids[i], ok: true}
+				}
+				return &RValue{t: st.Field(i).Type(), v: rv.v.(*AggV).f[i], ok: true}
+			}
+		}
+		return &RValue{}
 	})
 	V("NumField", func(in *Interp, caller *frame, fn *ssa.Function, args []Value) Value {
 		rv := in.rvalueCheck(args[0], "NumField")
